@@ -288,7 +288,7 @@ def sibling_struct_design(draw):
 @st.composite
 def cases_a(draw, n, light=False):
   designs = [draw(rtl_gen.designs(translatable=True, wide=False, max_steps=4, min_depth=draw(st.sampled_from([0, 1, 1, 2])),
-                                  child_bias=2, struct_bias=draw(st.sampled_from([0, 1, 2])))) for _ in range(n)]
+                                  child_bias=2, ifcs=draw(st.booleans()), struct_bias=draw(st.sampled_from([0, 1, 2])))) for _ in range(n)]
   designs.append(draw(sibling_struct_design()))
   return {"kind": "A", "designs": designs, "hashseed": draw(st.integers(2, 2 ** 31 - 1)), "light": light}
 
